@@ -59,6 +59,10 @@ def run(R):
     R.rule("C01-R9", "collection operators are complete: the UNION arm executes EVERY branch on the incoming solutions and appends all of its "
                      "rows (multiplicity preserved), the VALUES arm turns EVERY data row into a solution (an all-UNDEF row included) and "
                      "joins them with the incoming solutions; no iteration is skipped")
+    R.rule("C01-R10", "lowering is complete and filters are group-scoped: the lowering of a basic graph pattern appends a scan for EVERY triple "
+                      "pattern; the lowering of a group handles EVERY member (deferred filter, BIND, or joined sub-plan - no member is "
+                      "skipped); every deferred FILTER becomes a selection, and only after all other members of the group were lowered; "
+                      "UNION lowers every branch")
     R.rule("C01-R7", "plan memo completeness (shared with C02-R1): two different sub-plans of one query never share a memo entry")
     r1(R)
     r2(R)
@@ -69,6 +73,7 @@ def run(R):
     r7(R)
     r8(R)
     r9(R)
+    r10(R)
 
 
 def r1(R):
@@ -682,3 +687,66 @@ def r9(R):
             accroot = ex.alias_root(accs[0].args[0])
             okj = any(ex.alias_root(c.args[1]) == accroot and (ex.alias_root(c.args[0]) == 4 or _root_is_param(ex, (F.op_place(c.args[0]) or {"l": -1})["l"], 4)) for c in j if len(c.args) >= 2)
             R.ob("C01-R9", "values-joined", "the VALUES rows are joined with the incoming solutions", okj, where=ex.where(accs[0].ln))
+
+
+def r10(R):
+    prog = R.prog
+    lw = R.body("C01-R10", "utils::build_logical_plan_from_group_in_scope", crate="kolibrie")
+    if lw is None:
+        return
+    lo = P.loops_over(lw, ["patterns", "filters"])
+    pl = sorted(lo.get("patterns", []), key=lambda x: len(x[1]))
+    R.ob("C01-R10", "loops", "the lowering has a loop over a BGP's patterns, one over a group's members and one over the deferred filters "
+         "(found %d + %d)" % (len(pl), len(lo.get("filters", []))), len(pl) == 2 and len(lo.get("filters", [])) == 1, where=lw.where())
+    if len(pl) != 2 or len(lo.get("filters", [])) != 1:
+        return
+    (bh, bblocks, bnames), (gh, gblocks, gnames) = pl
+    fh, fblocks, fnames = lo["filters"][0]
+
+    def eff(blocks, names):
+        return [c for c in lw.calls() if c.bb in blocks and c.name() in names]
+    for tag, names in (("bgp", bnames), ("group", gnames), ("filters", fnames)):
+        whole = not [n for n in names if n not in ("iter", "into_iter", "deref")]
+        R.ob("C01-R10", "whole:" + tag, "the %s loop ranges over every element (pipeline %s)" % (tag, names), whole, where=lw.where())
+    be = eff(bblocks, ("append_join",))
+    R.ob("C01-R10", "bgp-no-skip", "every triple pattern of a BGP is appended to the plan", bool(be) and not P.skips_effect(lw, bh, bblocks, {c.bb for c in be}),
+         where=lw.where(be[0].ln if be else None), detail="a triple pattern that is skipped no longer constrains the solutions")
+    ge = eff(gblocks, ("append_join", "bind", "push"))
+    kinds = {c.name() for c in ge}
+    R.ob("C01-R10", "group-arms", "a group member is deferred (filter), bound (BIND) or joined (found %s)" % sorted(kinds), kinds >= {"append_join", "bind", "push"},
+         where=lw.where())
+    R.ob("C01-R10", "group-no-skip", "every member of a group is handled", bool(ge) and not P.skips_effect(lw, gh, gblocks, {c.bb for c in ge}),
+         where=lw.where(ge[0].ln if ge else None), detail="a group member that is skipped (a FILTER, a BIND, a nested pattern) silently disappears from the query")
+    # what is pushed in the group loop is the vector the filters loop consumes
+    pushes = [c for c in ge if c.name() == "push"]
+    fdrv = P.driver_of(lw, fh, fblocks)
+    froot = [r for r in P.flat(fdrv[2])[1] if r["k"] == "root"] if fdrv and fdrv[2] else []
+    same = bool(pushes) and bool(froot) and all(lw.alias_root(c.args[0]) == lw.alias_root(froot[0]["local"]) for c in pushes)
+    R.ob("C01-R10", "deferred-consumed", "the filters deferred while lowering a group are exactly those applied at its end", same, where=lw.where())
+    fe = eff(fblocks, ("selection",))
+    R.ob("C01-R10", "filters-no-skip", "every deferred FILTER becomes a selection", bool(fe) and not P.skips_effect(lw, fh, fblocks, {c.bb for c in fe}),
+         where=lw.where(fe[0].ln if fe else None))
+    # order: the filters loop runs after the members loop has finished (group scope), and no selection is built inside the members loop
+    after = lw.dominates(gh, fh) and fh not in gblocks and gh not in lw.reach_from([fh])
+    early = [c for c in lw.calls() if c.bb in gblocks and c.name() == "selection"]
+    R.ob("C01-R10", "filters-at-group-end", "selections for a group's own FILTERs are built only after all its other members were lowered", after and not early,
+         where=lw.where(early[0].ln if early else None),
+         detail=None if (after and not early) else "a FILTER applied where it stands cannot see variables bound by later triples or BINDs of the same group")
+    # the selection wraps the plan built so far and the result replaces it
+    # UNION: every branch lowered
+    un = [c for c in lw.calls() if c.name() == "union"]
+    oku = False
+    for c in lw.calls():
+        if c.name() != "map" or len(c.args) != 2:
+            continue
+        from c19 import closure_family_calls
+        key, inner = closure_family_calls(prog, lw, c.args[1])
+        if not key or not any(ic.key == lw.key for x, ic in inner):
+            continue            # not the branch-lowering map
+        names, roots = P.flat(P.tree(lw, c.args[0], stop_named=False))
+        if not [n for n in names if n not in ("iter", "into_iter", "deref")]:
+            # nothing between the map and the union but collect / `?`
+            cons = [x.name() for x in lw.calls() if x.args and F.op_place(x.args[0]) is not None and lw.alias_root(x.args[0]) == c.dest["l"]]
+            if all(n in ("collect", "branch") for n in cons):
+                oku = True
+    R.ob("C01-R10", "union-branches", "UNION lowers every branch (map over all branches, no truncation)", oku, where=lw.where(un[0].ln if un else None))
